@@ -54,7 +54,11 @@ pub fn specs() -> Vec<PropertySpec> {
         PropertySpec {
             id: "C08",
             level: "fault_enumeration",
-            plans: vec![Plan { engine: "e2", variant: "c08", quick: 250, thorough: 15_000, asan: false }],
+            plans: vec![
+                Plan { engine: "e2", variant: "c08", quick: 250, thorough: 15_000, asan: false },
+                Plan { engine: "e1", variant: "c08", quick: 15_000, thorough: 800_000, asan: false },
+                Plan { engine: "e1", variant: "c08", quick: 3_000, thorough: 100_000, asan: true },
+            ],
             rule: "at-rest corruption of one input (config, schema or operation file): truncate at a byte offset, flip one bit, splice with another file, empty, invalid UTF-8 tail, file vanished, unreadable; then check / generate / check+generate",
             assumptions: vec!["storage-fault slice only: grammar-directed fuzzing of the parser is a different technique"],
             real_components: vec!["nitrogql-cli binary", "loader ABI"],
